@@ -8,6 +8,7 @@ import ConduitModel.Driver.Errs
 import ConduitModel.Driver.Egress
 import ConduitModel.Driver.ErrPaths
 import ConduitModel.Driver.AckErr
+import ConduitModel.Driver.ProcSvc
 import ConduitModel.Driver.Registry
 import ConduitModel.Driver.Codec
 import ConduitModel.Driver.Lifecycle
@@ -38,6 +39,7 @@ def component (name : String) : Option (String → String) :=
   | "egress" => some egressLine
   | "workernack" => some workernackLine
   | "ackerr" => some ackerrLine
+  | "procsvc" => some procsvcLine
   | "b64" => some b64Line
   | "jsonstr" => some jsonstrLine
   | "storedoc" => some storedocLine
